@@ -64,6 +64,10 @@ class Col(list):
         return iter([StrVar(x) if isinstance(x, str) else x for x in list.__iter__(self)])
 
 
+class WriterRefuses(Exception):
+    """The writer raises for a value it is documented to write."""
+
+
 class NumVar:
     """Stand-in for a 0-d floating-point variable, with or without a variance; the numbers themselves are abstract."""
     ndim = 0
@@ -236,6 +240,8 @@ def run(tier: str) -> Run:
             ch = i.construct(chunk_cls, [dict(pairs)], {'comment': comment}, None)
             return i.call_function(i.find_method(ch.cls, 'write'), [sink], {}, bound=ch)
         outs = it.run_all(go)
+        if len(outs) == 1 and outs[0].kind == 'raise':
+            return f'?REFUSED: Chunk.write raises {outs[0].exc_type} at {outs[0].where}\n'  # not CIF: every rule that reads this text reports it
         if len(outs) != 1 or outs[0].kind != 'return':
             raise AnalysisError(f'Chunk.write({pairs!r}) did not evaluate to a single path: {[(o.kind, o.exc_type, o.where) for o in outs]}')
         return sink.text()
@@ -247,6 +253,8 @@ def run(tier: str) -> Run:
             lp = i.construct(loop_cls, [{k: Col(v) for k, v in cols.items()}], {'comment': comment}, None)
             return i.call_function(i.find_method(lp.cls, 'write'), [sink], {}, bound=lp)
         outs = it.run_all(go)
+        if len(outs) == 1 and outs[0].kind == 'raise':
+            return f'?REFUSED: Loop.write raises {outs[0].exc_type} at {outs[0].where}\n'
         if len(outs) != 1 or outs[0].kind != 'return':
             raise AnalysisError(f'Loop.write did not evaluate to a single path: {[(o.kind, o.exc_type, o.where) for o in outs]}')
         return sink.text()
@@ -258,7 +266,11 @@ def run(tier: str) -> Run:
     n = 0
     for s in strings:
         n += 1
-        text = write_chunk({'k': s, 'after': 'z'})
+        try:
+            text = write_chunk({'k': s, 'after': 'z'})
+        except WriterRefuses as ex:
+            classes.setdefault(cif11.features(s), []).append((s, '', str(ex)))
+            continue
         want = [('pair', '_k', encode(s)), ('pair', '_after', 'z')]
         try:
             got = cif11.parse_pairs(text)
@@ -287,7 +299,11 @@ def run(tier: str) -> Run:
     nl = 0
     for s1, s2 in itertools.product(singles, repeat=2):
         nl += 1
-        text = write_loop({'c1': [s1, 'p'], 'c2': [s2, 'q']}) + '_after z\n'
+        try:
+            text = write_loop({'c1': [s1, 'p'], 'c2': [s2, 'q']}) + '_after z\n'
+        except WriterRefuses as ex:
+            lclasses.setdefault(cif11.features(s1) + ' | ' + cif11.features(s2), []).append(((s1, s2), '', str(ex)))
+            continue
         try:
             got = cif11.parse_pairs(text)
             ok = len(got) == 2 and got[0][0] == 'loop' and got[0][1] == ['_c1', '_c2'] and len(got[0][2]) == 2 \
